@@ -319,19 +319,19 @@ Qed.
 (* every row-level step either leaves the table alone or replaces the binding
    of one key by a binding under a key that is free after the removal *)
 Definition step_shape (sch : schema) (t t' : tbl) : Prop :=
-  t' = t \/ exists k k' v, t' = put k' v (remove k t) /\ lookup k' (remove k t) = None /\
-                          k' = key_of sch v.
+  t' = t \/ exists (f : key * row -> bool) k' v,
+              t' = put k' v (filter f t) /\ lookup k' (filter f t) = None /\ k' = key_of sch v.
 
 Lemma step_shape_wf sch t t' : step_shape sch t t' -> tbl_wf t -> tbl_wf t'.
 Proof.
-  intros [->|[k [k' [v [-> [L _]]]]]] W; auto.
-  apply put_wf; auto. now apply remove_wf.
+  intros [->|[f [k' [v [-> [L _]]]]]] W; auto.
+  apply put_wf; auto. now apply filter_wf.
 Qed.
 
 Lemma step_shape_sorted sch t t' : step_shape sch t t' -> sorted t -> sorted t'.
 Proof.
-  intros [->|[k [k' [v [-> [L _]]]]]] S; auto.
-  apply sorted_put; auto. now apply sorted_remove.
+  intros [->|[f [k' [v [-> [L _]]]]]] S; auto.
+  apply sorted_put; auto. now apply sorted_filter.
 Qed.
 
 Lemma free_after_remove k k' t :
@@ -341,17 +341,64 @@ Proof.
   cbn in H. unfold mem in H. destruct (lookup k' t); [discriminate|auto].
 Qed.
 
+Lemma filter_true {A} (l : list A) : filter (fun _ => true) l = l.
+Proof. induction l; cbn; congruence. Qed.
+
 Lemma update_row_shape bl sch en sets inc s kr s' :
   update_row bl sch en sets inc s kr = WOk s' -> step_shape sch (w_t s) (w_t s').
 Proof.
   unfold update_row. destruct kr as [k old].
   destruct (apply_sets en sets old) as [vals|]; [|discriminate].
   destruct (row_eqb vals old); [intro H; inversion H; now left|].
-  destruct (bl (key_of sch vals)); [discriminate|].
-  destruct (negb (key_eqb (key_of sch vals) k) && mem (key_of sch vals) (w_t s)) eqn:C; [discriminate|].
-  intro H; inversion H; cbn. right. do 3 eexists. split; [reflexivity|].
-  split; [now apply free_after_remove|reflexivity].
+  destruct (existsb bl (row_locks sch vals)); [discriminate|].
+  destruct (negb (key_eqb (key_of sch vals) k) && mem (key_of sch vals) (w_t s)) eqn:C;
+    cbn [orb]; [discriminate|].
+  destruct (sec_conflicts (s_uniq sch) vals [k; key_of sch vals] (w_t s)); [|discriminate].
+  intro H; inversion H; cbn. right. rewrite remove_as_filter. do 3 eexists. split; [reflexivity|].
+  split; [rewrite <- remove_as_filter; now apply free_after_remove|reflexivity].
 Qed.
+
+(* what a successful update_row did *)
+Lemma update_row_ok bl sch en sets inc s k old s' :
+  update_row bl sch en sets inc s (k, old) = WOk s' ->
+  s' = s \/ exists vals,
+    apply_sets en sets old = Ok vals /\ row_eqb vals old = false /\
+    existsb bl (row_locks sch vals) = false /\
+    lookup (key_of sch vals) (remove k (w_t s)) = None /\
+    sec_conflicts (s_uniq sch) vals [k; key_of sch vals] (w_t s) = [] /\
+    s' = {| w_t := put (key_of sch vals) vals (remove k (w_t s));
+            w_auto := bump_auto (s_cols sch) vals (w_auto s);
+            w_aff := w_aff s + inc; w_last := w_last s;
+            w_locks := w_locks s ++ row_locks sch vals |}.
+Proof.
+  unfold update_row.
+  destruct (apply_sets en sets old) as [vals|]; [|discriminate].
+  destruct (row_eqb vals old) eqn:RE; [intro H; inversion H; now left|].
+  destruct (existsb bl (row_locks sch vals)) eqn:B; [discriminate|].
+  destruct (negb (key_eqb (key_of sch vals) k) && mem (key_of sch vals) (w_t s)) eqn:C;
+    cbn [orb]; [discriminate|].
+  destruct (sec_conflicts (s_uniq sch) vals [k; key_of sch vals] (w_t s)) eqn:SC; [|discriminate].
+  intro H; inversion H. right. exists vals. repeat split; auto. now apply free_after_remove.
+Qed.
+
+Definition in_the_way (sch : schema) (vals : row) (t : tbl) : tbl :=
+  match lookup (key_of sch vals) t with Some old => [(key_of sch vals, old)] | None => [] end
+  ++ sec_conflicts (s_uniq sch) vals [key_of sch vals] t.
+
+Lemma replace_target_free sch vals t :
+  lookup (key_of sch vals) (remove_keys (keys (in_the_way sch vals t)) t) = None.
+Proof.
+  unfold remove_keys, in_the_way.
+  rewrite (lookup_filter_key (fun k0 => negb (existsb (key_eqb k0) (keys
+     (match lookup (key_of sch vals) t with Some old => [(key_of sch vals, old)] | None => [] end
+      ++ sec_conflicts (s_uniq sch) vals [key_of sch vals] t))))).
+  destruct (lookup (key_of sch vals) t) eqn:L; cbn.
+  - now rewrite key_eqb_refl.
+  - now destruct (negb _).
+Qed.
+
+Lemma in_the_way_nil sch vals t : in_the_way sch vals t = [] -> lookup (key_of sch vals) t = None.
+Proof. unfold in_the_way. destruct (lookup (key_of sch vals) t); [discriminate|auto]. Qed.
 
 Lemma insert_row_shape bl sch en mode idx ondup s es s' :
   insert_row bl sch en mode idx ondup s es = WOk s' -> step_shape sch (w_t s) (w_t s').
@@ -361,15 +408,19 @@ Proof.
             fill_defaults (s_cols sch) g) as [vals0|]; [|discriminate].
   destruct (gen_auto (s_cols sch) vals0 (w_auto s) (w_last s)) as [[vals1 auto1] last1].
   destruct (store_all (s_cols sch) vals1 auto1) as [auto2 [vals|]]; [|discriminate].
-  destruct (bl (key_of sch vals)); [discriminate|].
-  destruct (lookup (key_of sch vals) (w_t s)) as [old|] eqn:L.
+  destruct (existsb bl (row_locks sch vals)); [discriminate|].
+  fold (in_the_way sch vals (w_t s)).
+  pose proof (replace_target_free sch vals (w_t s)) as RF.
+  pose proof (in_the_way_nil sch vals (w_t s)) as NF.
+  destruct (in_the_way sch vals (w_t s)) as [|[ko old] more].
+  - intro H; inversion H; cbn. right. exists (fun _ => true), (key_of sch vals), vals.
+    rewrite filter_true. auto.
   - destruct ondup as [|x ondup].
-    + destruct mode; intro H; inversion H; cbn.
-      * now left.
-      * right. do 3 eexists. split; [reflexivity|]. split; [apply lookup_remove_eq|reflexivity].
-    + intro H. apply update_row_shape in H. exact H.
-  - intro H; inversion H; cbn. right. exists (key_of sch vals), (key_of sch vals), vals.
-    rewrite (remove_absent _ _ L). repeat split; auto.
+    + destruct mode; try discriminate.
+      * intro H; inversion H; now left.
+      * destruct (existsb bl (keys ((ko, old) :: more))); [discriminate|].
+        intro H; inversion H; cbn. right. do 3 eexists. split; [reflexivity|]. split; [exact RF|reflexivity].
+    + destruct (bl ko); [discriminate|]. intro H. apply update_row_shape in H. exact H.
 Qed.
 
 Lemma wfold_inv {A} (P : wstate -> Prop) (f : wstate -> A -> wres) l :
@@ -678,11 +729,7 @@ Proof.
             _ sel _ _ s1 _ F k r L NI); [|cbn; auto].
   clear. intros s [k0 old] s' I P H k r L NI.
   specialize (P k r L NI).
-  unfold update_row in H.
-  destruct (apply_sets _ sets old) as [vals|]; [|discriminate].
-  destruct (row_eqb vals old); [inversion H; now subst|].
-  destruct (negb (key_eqb (key_of sch vals) k0) && mem (key_of sch vals) (w_t s)) eqn:C; [discriminate|].
-  apply free_after_remove in C. inversion H; subst; cbn.
+  apply update_row_ok in H. destruct H as [->|[vals [_ [_ [_ [C [_ ->]]]]]]]; auto. cbn.
   assert (K0 : k <> k0).
   { intro; subst. apply NI. apply in_map_iff. exists (k0, old). auto. }
   rewrite lookup_put by auto. rewrite (lookup_remove_neq k0 k) by congruence.
@@ -701,9 +748,10 @@ Proof.
             fill_defaults (s_cols sch) g) as [vals0|]; [|discriminate].
   destruct (gen_auto (s_cols sch) vals0 (w_auto s) (w_last s)) as [[vals1 auto1] last1].
   destruct (store_all (s_cols sch) vals1 auto1) as [auto2 [vals|]]; [|discriminate].
-  cbn [no_block].
-  destruct (lookup (key_of sch vals) (w_t s)) as [old|] eqn:L; [discriminate|].
-  intro H; inversion H; cbn. eauto.
+  rewrite existsb_no_block. fold (in_the_way sch vals (w_t s)).
+  pose proof (in_the_way_nil sch vals (w_t s)) as NF.
+  destruct (in_the_way sch vals (w_t s)) as [|[ko old] more]; [|discriminate].
+  intro H; inversion H; cbn. exists (key_of sch vals), vals. split; [now apply NF|auto].
 Qed.
 
 Lemma insert_plain_fold sch en idx rows : forall s s',
@@ -745,17 +793,21 @@ Proof.
   apply insert_plain_fold in F. cbn in F. destruct F as [A [B C]]. repeat split; auto.
 Qed.
 
-(* a duplicate key refuses the whole plain INSERT with 1062 *)
+(* a row in the way - on the primary key or on any secondary unique index -
+   refuses the whole plain INSERT with 1062 *)
 Theorem insert_duplicate_key_1062 sch en idx s es :
-  forall vals0 vals1 auto1 last1 auto2 vals old,
+  forall vals0 vals1 auto1 last1 auto2 vals,
   (do g <- given_values en (s_cols sch) idx es (map (fun _ => None) (s_cols sch));
    fill_defaults (s_cols sch) g) = Ok vals0 ->
   gen_auto (s_cols sch) vals0 (w_auto s) (w_last s) = (vals1, auto1, last1) ->
   store_all (s_cols sch) vals1 auto1 = (auto2, Ok vals) ->
-  lookup (key_of sch vals) (w_t s) = Some old ->
-  insert_row no_block sch en InsPlain idx [] s es = WFail auto2 (w_locks s ++ [key_of sch vals]) (EErr E_DUP).
+  in_the_way sch vals (w_t s) <> [] ->
+  insert_row no_block sch en InsPlain idx [] s es =
+  WFail auto2 (w_locks s ++ row_locks sch vals) (EErr E_DUP).
 Proof.
-  intros * H1 H2 H3 H4. unfold insert_row. rewrite H1, H2, H3, H4. reflexivity.
+  intros * H1 H2 H3 H4. unfold insert_row. rewrite H1, H2, H3, existsb_no_block.
+  fold (in_the_way sch vals (w_t s)).
+  destruct (in_the_way sch vals (w_t s)) as [|[ko old] more]; [congruence|reflexivity].
 Qed.
 
 (* ================================================================ upsert *)
@@ -764,28 +816,31 @@ Qed.
    VALUES(col) reading the row that would have been inserted *)
 Theorem upsert_is_insert_or_update sch en mode idx x ondup s es s' :
   insert_row no_block sch en mode idx (x :: ondup) s es = WOk s' ->
-  (exists k vals, lookup k (w_t s) = None /\ w_t s' = put k vals (w_t s) /\
-                  w_aff s' = w_aff s + 1)
+  (exists k vals, lookup k (w_t s) = None /\ in_the_way sch vals (w_t s) = [] /\
+                  w_t s' = put k vals (w_t s) /\ w_aff s' = w_aff s + 1)
   \/
-  (exists k old vals s1,
-      lookup k (w_t s) = Some old /\ k = key_of sch vals /\
+  (* the row updated is the FIRST one in the way: the holder of the primary key
+     if there is one, else the first holder of a secondary unique value *)
+  (exists ko old more vals s1,
+      in_the_way sch vals (w_t s) = (ko, old) :: more /\
       w_t s1 = w_t s /\ w_aff s1 = w_aff s /\
       update_row no_block sch {| e_cols := s_cols sch; e_row := []; e_args := e_args en; e_ins := Some vals |}
-                 (x :: ondup) 2 s1 (k, old) = WOk s').
+                 (x :: ondup) 2 s1 (ko, old) = WOk s').
 Proof.
   unfold insert_row.
   destruct (do g <- given_values en (s_cols sch) idx es (map (fun _ => None) (s_cols sch));
             fill_defaults (s_cols sch) g) as [vals0|]; [|discriminate].
   destruct (gen_auto (s_cols sch) vals0 (w_auto s) (w_last s)) as [[vals1 auto1] last1].
   destruct (store_all (s_cols sch) vals1 auto1) as [auto2 [vals|]]; [|discriminate].
-  cbn [no_block].
-  destruct (lookup (key_of sch vals) (w_t s)) as [old|] eqn:L.
-  - intro H. right.
-    exists (key_of sch vals), old, vals,
+  rewrite existsb_no_block. fold (in_the_way sch vals (w_t s)).
+  pose proof (in_the_way_nil sch vals (w_t s)) as NF.
+  destruct (in_the_way sch vals (w_t s)) as [|[ko old] more] eqn:W.
+  - intro H; inversion H; cbn. left. exists (key_of sch vals), vals. repeat split; auto.
+  - cbn [no_block]. intro H. right.
+    exists ko, old, more, vals,
       {| w_t := w_t s; w_auto := auto2; w_aff := w_aff s; w_last := last1;
-         w_locks := w_locks s ++ [key_of sch vals] |}.
+         w_locks := (w_locks s ++ row_locks sch vals) ++ [ko] |}.
     cbn. repeat split; auto.
-  - intro H; inversion H; cbn. left. eauto.
 Qed.
 
 Lemma insert_row_plain_any sch en mode idx ondup s es s' :
@@ -797,8 +852,9 @@ Proof.
             fill_defaults (s_cols sch) g) as [vals0|]; [|discriminate].
   destruct (gen_auto (s_cols sch) vals0 (w_auto s) (w_last s)) as [[vals1 auto1] last1].
   destruct (store_all (s_cols sch) vals1 auto1) as [auto2 [vals|]]; [|discriminate].
-  cbn [no_block].
-  destruct (lookup (key_of sch vals) (w_t s)) as [old|] eqn:L; [discriminate|auto].
+  rewrite existsb_no_block.
+  destruct (_ ++ sec_conflicts (s_uniq sch) vals [key_of sch vals] (w_t s)) as [|[ko old] more];
+    [auto|discriminate].
 Qed.
 
 (* when no listed key collides, the upsert / IGNORE / REPLACE forms are the plain INSERT *)
@@ -841,7 +897,7 @@ Definition sch : schema :=
                     c_default := Some VNull; c_auto := false |};
                  {| c_name := c_age; c_ty := TInt (-128) 127; c_notnull := true;
                     c_default := Some (VInt 7); c_auto := false |} ];
-     s_pk := [0%nat] |}.
+     s_pk := [0%nat]; s_uniq := [] |}.
 
 Definition row1 := [VInt 1; VStr [x61]; VInt 5].
 Definition row2 := [VInt 2; VNull; VInt 9].
@@ -946,11 +1002,9 @@ Proof.
     assert (Step : (w_t s1 = w_t s /\ w_aff s1 = w_aff s /\ lookup k0 (w_t s1) = Some old) \/
                    (exists vals, row_eqb vals old = false /\ w_aff s1 = w_aff s + 1 /\
                        forall k, lookup k (w_t s1) = if key_eqb k k0 then Some vals else lookup k (w_t s))).
-    { unfold update_row in E. destruct (apply_sets en sets old) as [vals|] eqn:AS; [|discriminate].
-      destruct (row_eqb vals old) eqn:RE.
-      - inversion E; subst. left. auto.
-      - rewrite (KK _ _ _ EC AS), <- K0, key_eqb_refl in E. cbn [negb andb] in E.
-        injection E as E1. rewrite <- E1. cbn.
+    { apply update_row_ok in E. destruct E as [E|[vals [AS [RE [_ [_ [_ E]]]]]]].
+      - rewrite E. left. auto.
+      - rewrite E. cbn. rewrite (KK _ _ _ EC AS), <- K0.
         right. exists vals. repeat split; auto. intro k.
         rewrite lookup_put by apply lookup_remove_eq.
         keq k k0; auto. apply lookup_remove_neq; congruence. }
@@ -1030,10 +1084,10 @@ Qed.
 (* ================================================================ rows stay filed under their own key *)
 Lemma step_shape_keyed sch t t' : step_shape sch t t' -> keyed sch t -> keyed sch t'.
 Proof.
-  intros [->|[k [k' [v [-> [L ->]]]]]] K; auto.
+  intros [->|[f [k' [v [-> [L ->]]]]]] K; auto.
   intros k1 r1 I. unfold put in I. apply (Permutation_in _ (ins_sorted_perm _ _)) in I.
   destruct I as [E|I]; [inversion E; auto|].
-  rewrite remove_as_filter in I. apply filter_In in I. apply K, I.
+  apply filter_In in I. apply K, I.
 Qed.
 
 (* exec keeps every row under the key computed from its own columns *)
@@ -1048,3 +1102,174 @@ Proof.
     + intros. eapply step_shape_keyed; eauto.
     + now rewrite E0.
 Qed.
+
+(* ================================================================ secondary unique indexes *)
+(* no two different rows agree, without NULLs, on the columns of a unique index *)
+Definition uniq_ok (sch : schema) (t : tbl) : Prop :=
+  forall ix, In ix (s_uniq sch) ->
+  forall k1 r1 k2 r2, In (k1, r1) t -> In (k2, r2) t -> collides ix r1 r2 = true -> k1 = k2.
+
+Lemma collides_sym ix a b : collides ix a b = true -> collides ix b a = true.
+Proof.
+  unfold collides. intro H. apply andb_true_iff in H. destruct H as [N E].
+  apply key_eqb_eq in E. rewrite <- E, N. cbn. apply key_eqb_refl.
+Qed.
+
+Lemma sec_conflicts_nil ixs vals : forall skip t,
+  sec_conflicts ixs vals skip t = [] ->
+  forall ix kr, In ix ixs -> In kr t -> existsb (key_eqb (fst kr)) skip = false ->
+                collides ix vals (snd kr) = false.
+Proof.
+  induction ixs as [|ix0 ixs IH]; cbn; intros skip t H ix kr I; [destruct I|].
+  apply app_eq_nil in H. destruct H as [H1 H2]. rewrite H1 in H2. cbn in H2. rewrite app_nil_r in H2.
+  intros It S. destruct I as [<-|I]; [|eapply IH; eauto].
+  destruct (collides ix0 vals (snd kr)) eqn:C; auto.
+  assert (In kr []); [|contradiction]. rewrite <- H1. apply filter_In. split; auto. now rewrite S, C.
+Qed.
+
+Lemma sec_conflicts_complete ixs vals : forall skip t ix kr,
+  In ix ixs -> In kr t -> collides ix vals (snd kr) = true ->
+  existsb (key_eqb (fst kr)) skip = true \/ In (fst kr) (keys (sec_conflicts ixs vals skip t)).
+Proof.
+  induction ixs as [|ix0 ixs IH]; cbn; intros skip t ix kr I It C; [destruct I|].
+  unfold keys. rewrite map_app.
+  destruct (existsb (key_eqb (fst kr)) skip) eqn:S; auto. right. apply in_or_app.
+  destruct I as [<-|I].
+  - left. apply in_map. apply filter_In. split; auto. now rewrite S, C.
+  - destruct (IH (skip ++ map fst (filter (fun kr0 => negb (existsb (key_eqb (fst kr0)) skip) && collides ix0 vals (snd kr0)) t))
+                 t ix kr I It C) as [E|E]; auto.
+    rewrite existsb_app, S in E. cbn in E. left.
+    apply existsb_exists in E. destruct E as [k1 [I1 E1]]. apply key_eqb_eq in E1. now subst.
+Qed.
+
+(* a write step puts a row that collides with none of the rows that stay *)
+Definition clean_step (sch : schema) (t t' : tbl) : Prop :=
+  t' = t \/ exists (f : key * row -> bool) k' v,
+              t' = put k' v (filter f t) /\
+              forall ix kr, In ix (s_uniq sch) -> In kr (filter f t) -> collides ix v (snd kr) = false.
+
+Lemma clean_step_uniq sch t t' : clean_step sch t t' -> uniq_ok sch t -> uniq_ok sch t'.
+Proof.
+  intros [->|[f [k' [v [-> Cl]]]]] U; auto.
+  intros ix Iix k1 r1 k2 r2 I1 I2 C. unfold put in I1, I2.
+  apply (Permutation_in _ (ins_sorted_perm _ _)) in I1, I2.
+  destruct I1 as [E1|I1], I2 as [E2|I2].
+  - congruence.
+  - inversion E1; subst. pose proof (Cl ix (k2, r2) Iix I2) as X. cbn in X. congruence.
+  - inversion E2; subst. apply collides_sym in C. pose proof (Cl ix (k1, r1) Iix I1) as X. cbn in X. congruence.
+  - apply filter_In in I1, I2. eapply U; eauto; tauto.
+Qed.
+
+Lemma In_lookup_some k r t : In (k, r) t -> lookup k t <> None.
+Proof. intros I L. apply lookup_None in L. apply L. apply in_map_iff. exists (k, r). auto. Qed.
+
+Lemma update_row_clean bl sch en sets inc s kr s' :
+  update_row bl sch en sets inc s kr = WOk s' -> clean_step sch (w_t s) (w_t s').
+Proof.
+  destruct kr as [k old]. intro H. apply update_row_ok in H.
+  destruct H as [->|[vals [_ [_ [_ [L [SC ->]]]]]]]; [now left|]. cbn. right.
+  rewrite remove_as_filter in *. do 3 eexists. split; [reflexivity|].
+  intros ix [k2 r2] Iix I2. apply (sec_conflicts_nil _ _ _ _ SC ix (k2, r2) Iix).
+  - apply filter_In in I2. tauto.
+  - cbn. rewrite orb_false_r. apply orb_false_iff. split.
+    + apply filter_In in I2. destruct I2 as [_ N]. cbn in N. rewrite key_eqb_sym. now destruct (key_eqb k k2).
+    + apply key_eqb_false. intro; subst. now apply In_lookup_some in I2.
+Qed.
+
+Lemma insert_row_clean bl sch en mode idx ondup s es s' :
+  insert_row bl sch en mode idx ondup s es = WOk s' -> clean_step sch (w_t s) (w_t s').
+Proof.
+  unfold insert_row.
+  destruct (do g <- given_values en (s_cols sch) idx es (map (fun _ => None) (s_cols sch));
+            fill_defaults (s_cols sch) g) as [vals0|]; [|discriminate].
+  destruct (gen_auto (s_cols sch) vals0 (w_auto s) (w_last s)) as [[vals1 auto1] last1].
+  destruct (store_all (s_cols sch) vals1 auto1) as [auto2 [vals|]]; [|discriminate].
+  destruct (existsb bl (row_locks sch vals)); [discriminate|].
+  fold (in_the_way sch vals (w_t s)).
+  destruct (in_the_way sch vals (w_t s)) as [|[ko old] more] eqn:W.
+  - intro H; inversion H; cbn. right. exists (fun _ => true), (key_of sch vals), vals.
+    rewrite filter_true. split; auto. intros ix [k2 r2] Iix I2.
+    unfold in_the_way in W. apply app_eq_nil in W. destruct W as [W1 W2].
+    apply (sec_conflicts_nil _ _ _ _ W2 ix (k2, r2) Iix I2). cbn. rewrite orb_false_r.
+    apply key_eqb_false. intro; subst. apply In_lookup_some in I2.
+    destruct (lookup (key_of sch vals) (w_t s)); [discriminate|congruence].
+  - destruct ondup as [|x ondup].
+    + destruct mode; try discriminate.
+      * intro H; inversion H; now left.
+      * destruct (existsb bl (keys ((ko, old) :: more))); [discriminate|].
+        intro H; inversion H; cbn. right. do 3 eexists. split; [reflexivity|].
+        intros ix [k2 r2] Iix I2. apply filter_In in I2. destruct I2 as [It N].
+        change (fst (k2, r2)) with k2 in N. cbn [snd].
+        destruct (collides ix vals r2) eqn:C; auto. exfalso.
+        destruct (sec_conflicts_complete (s_uniq sch) vals [key_of sch vals] (w_t s) ix (k2, r2) Iix It C)
+          as [E|E]; cbn in E.
+        -- rewrite orb_false_r in E. apply key_eqb_eq in E. subst k2.
+           assert (X : existsb (key_eqb (key_of sch vals)) (ko :: keys more) = true);
+             [|rewrite X in N; discriminate].
+           change (ko :: keys more) with (keys ((ko, old) :: more)). rewrite <- W. unfold in_the_way. apply In_lookup_some in It.
+           destruct (lookup (key_of sch vals) (w_t s)); [|congruence]. cbn. now rewrite key_eqb_refl.
+        -- assert (X : existsb (key_eqb k2) (ko :: keys more) = true);
+             [|rewrite X in N; discriminate].
+           change (ko :: keys more) with (keys ((ko, old) :: more)). rewrite <- W. unfold in_the_way, keys. rewrite map_app, existsb_app.
+           apply orb_true_iff. right. apply existsb_exists. exists k2. split; auto. apply key_eqb_refl.
+    + destruct (bl ko); [discriminate|]. intro H. apply update_row_clean in H. exact H.
+Qed.
+
+(* every secondary unique index stays unique under exec (any statement, any
+   outcome, whatever other transactions have locked) *)
+Theorem exec_preserves_unique_indexes bl sch st s args :
+  uniq_ok sch (ts_rows st) -> uniq_ok sch (ts_rows (r_state (exec_l bl sch st s args))).
+Proof.
+  intro U.
+  assert (G : forall A (f : wstate -> A -> wres) l s0 s1,
+             (forall s x s', f s x = WOk s' -> clean_step sch (w_t s) (w_t s')) ->
+             uniq_ok sch (w_t s0) -> wfold f l s0 = WOk s1 -> uniq_ok sch (w_t s1)).
+  { intros A f l s0 s1 Hf U0 W.
+    apply (wfold_inv (fun s => uniq_ok sch (w_t s)) f l) with (s := s0); auto.
+    intros. eapply clean_step_uniq; eauto. }
+  destruct s as [f w o lim fu|mode names rows ondup|sets w o lim|w o lim]; cbn.
+  - now destruct (exec_select_l bl sch (ts_rows st) f w o lim fu args).
+  - unfold exec_insert.
+    destruct (match names with Some ns => resolve_cols (s_cols sch) ns [] | None => Ok _ end) as [idx|]; auto.
+    destruct (negb (arity_ok _ _ rows)); auto.
+    destruct (negb _); auto.
+    match goal with |- context [wfold ?f ?l ?s0] => destruct (wfold f l s0) as [s1|] eqn:W end; cbn; auto.
+    refine (G _ _ _ _ _ _ _ W); [intros; eapply insert_row_clean; eauto|exact U].
+  - unfold exec_update. destruct (negb _); auto.
+    destruct (select_rows _ w o lim (ts_rows st)) as [sel|]; auto.
+    destruct (existsb bl (keys sel)); auto.
+    match goal with |- context [wfold ?f ?l ?s0] => destruct (wfold f l s0) as [s1|] eqn:W end; cbn; auto.
+    refine (G _ _ _ _ _ _ _ W); [intros s2 [k0 o0] s3 H; eapply update_row_clean; eauto|exact U].
+  - unfold exec_delete. destruct (negb _); auto.
+    destruct (select_rows _ w o lim (ts_rows st)) as [sel|]; cbn; auto.
+    destruct (existsb bl (keys sel)); cbn; auto.
+    intros ix Iix k1 r1 k2 r2 I1 I2. apply filter_In in I1, I2. eapply U; eauto; tauto.
+Qed.
+
+Module UniqueExamples.
+Import Coq.Strings.Byte Examples.
+(* the table of Examples with UNIQUE KEY (name) *)
+Definition schu : schema := {| s_cols := s_cols sch; s_pk := s_pk sch; s_uniq := [[1%nat]] |}.
+
+(* INSERT (id, name, age) VALUES (9, 'a', 1) collides with row 1 on the unique name:
+   plain => 1062 and nothing changes; ON DUPLICATE KEY UPDATE age = age + 10 updates ROW 1
+   (affected 2) and takes its row lock; a NULL name never collides *)
+Definition ins od := SInsert InsPlain (Some [c_id; c_name_; c_age])
+                             [[ELit (VInt 9); ELit (VStr [x61]); ELit (VInt 1)]] od.
+Example unique_index_nonvacuous :
+  uniq_ok schu (ts_rows st0) /\
+  r_out (exec schu st0 (ins []) []) = Fail (EErr E_DUP) /\
+  r_out (exec schu st0 (ins [(c_age, EArith APlus (ECol c_age) (ELit (VInt 10)))]) []) = OkMod 2 0 /\
+  lookup [VInt 1] (ts_rows (r_state (exec schu st0 (ins [(c_age, EArith APlus (ECol c_age) (ELit (VInt 10)))]) [])))
+    = Some [VInt 1; VStr [x61]; VInt 15] /\
+  r_locks (exec schu st0 (ins [(c_age, EArith APlus (ECol c_age) (ELit (VInt 10)))]) [])
+    = [[VInt 9]; [VNull; VInt 0; VStr [x61]]; [VInt 1]; [VInt 1]; [VNull; VInt 0; VStr [x61]]] /\
+  r_out (exec schu st0 (SInsert InsPlain (Some [c_id; c_name_]) [[ELit (VInt 9); ELit VNull]] []) []) = OkMod 1 0.
+Proof.
+  split.
+  - intros ix [<-|[]] k1 r1 k2 r2 I1 I2 C. cbn in I1, I2.
+    destruct I1 as [E1|[E1|[E1|[]]]], I2 as [E2|[E2|[E2|[]]]]; inversion E1; inversion E2; subst;
+      auto; vm_compute in C; discriminate.
+  - repeat split; vm_compute; reflexivity.
+Qed.
+End UniqueExamples.
